@@ -28,8 +28,10 @@ def register(hook: PluginManager, run_arg: RunArg) -> None:
         hook.register(FilterLambda)
         hook.register(FilterByModuleName)
     else:
-        hook.register(FilterLambda)
+        # FilterLambda is registered last so that it is called first; otherwise
+        # FilterMainScript, which always returns a result, would shadow it.
         hook.register(FilterMainScript)
+        hook.register(FilterLambda)
     hook.register(GlobalTraceFunc)
     hook.register(TraceFuncCreator)
     hook.register(CallableComposer)
